@@ -202,7 +202,7 @@ def concrete_batch(pid, tier, jobs):
     if not jobs:
         return []
     env = dict(os.environ)
-    env["PYTHONPATH"] = HERE
+    env["PYTHONPATH"] = HERE + (":" + os.environ["SX_REPO"] if os.environ.get("SX_REPO") else "")
     env["PYTHONDONTWRITEBYTECODE"] = "1"
     env.pop("PYTHONHASHSEED", None)
     p = subprocess.run([CONCRETE_PY, "-m", "sx.concrete", pid, tier], input=json.dumps(jobs), text=True,
